@@ -47,7 +47,8 @@ def gen_case(rng, ctx):
         evs.append(s)
     return dict(kind="alias", backend=backend, bulk=rng.random() < 0.4, events=evs,
                 bucket_data=rand_data(rng, 3), update_data={"k": rand_json(rng, 2), "l": [1, {"m": 2}]},
-                repl=[rand_event_spec(rng, 3) for _ in range(3)], del_pick=rng.randrange(100))
+                repl=[rand_event_spec(rng, 3) for _ in range(3)], del_pick=rng.randrange(100),
+                repeat=rng.choice([0, 0, 2, 3, 5]))
 
 
 def _want(spec):
@@ -215,6 +216,29 @@ def run_case(case, ctx):
                 if before[part] != after[part]:
                     viols.append((f"caller-mutation-after-rewrite-changed-stored-{part}",
                                   f"backend={backend} before={before[part]!r:.300} after={after[part]!r:.300}"))
+        # ------------------------------------------------------------ the same object several times in one bulk insert
+        if not viols and case.get("repeat", 0) > 1:
+            spec = dict(case["repl"][0], data=dict(case["repl"][0]["data"], uid=2000))
+            one = mk_event(spec)
+            other = mk_event(dict(case["repl"][1], data=dict(case["repl"][1]["data"], uid=2001)))
+            batch = [one] * case["repeat"]
+            batch.insert(1, other)
+            b.insert(batch)
+            twins = [t for t in dump_bucket(b) if __import__("json").loads(t[3]).get("uid") == 2000]
+            if len(twins) != case["repeat"]:
+                viols.append(("repeated-object-in-bulk-insert-lost-or-multiplied", f"backend={backend} inserted {case['repeat']}x, found {len(twins)}"))
+            elif len({t[0] for t in twins}) != len(twins):
+                viols.append(("ids-not-unique", f"backend={backend} the same event object inserted {case['repeat']}x in one list got ids {[t[0] for t in twins]}"))
+            else:
+                for t in twins:
+                    _cmp("repeated-object", _want(spec), t, viols)
+                # they are independent stored events: rewriting one leaves the others alone
+                b.replace(twins[0][0], mk_event(dict(case["repl"][2], data={"uid": 2002})))
+                left = [t for t in dump_bucket(b) if __import__("json").loads(t[3]).get("uid") == 2000]
+                if len(left) != case["repeat"] - 1:
+                    viols.append(("repeated-object-copies-are-one-stored-event", f"backend={backend} after replacing one of "
+                                  f"{case['repeat']} copies {len(left)} are left unchanged"))
+            ctx.count("repeated_object_probes")
         # ------------------------------------------------------------ ids stay unique across deletions
         if len(ids) >= 2 and not viols:
             victim = ids[case.get("del_pick", 0) % (len(ids) - 1)]      # never the highest id: that one is C02's case
